@@ -17,6 +17,9 @@ def main():
     elif pid == 'C10':
         import slot
         slot.main(pid, 'quick' if tier == 'replay' else tier, rp)
+    elif pid == 'C11':
+        import polltab
+        polltab.main(pid, 'quick' if tier == 'replay' else tier, rp)
     elif pid == 'C12':
         import after
         after.main(pid, 'quick' if tier == 'replay' else tier, rp)
